@@ -23,7 +23,7 @@ SPEC = {'id': 'C14',
           ('Snowflake.Tie.BrokerHttp', 'Snowflake.Tie.BrokerHttp.status_strings_tie'),
           ('Snowflake.Tie.BrokerHttp', 'Snowflake.Tie.BrokerHttp.versioned_is_not_legacy'),
           ('Snowflake.Tie.BrokerHttp', 'Snowflake.Tie.BrokerHttp.readLimit_tie')],
- 'harness': [{'pkg': 'broker', 'test': 'TestVerifC14$', 'timeout': '30m'}],
+ 'harness': [{'pkg': 'broker', 'test': 'TestVerifC14$', 'timeout': '15m'}],
  'overlay': {'broker/zz_verif_c14_test.go': 'c14_broker_http_test.go'},
  'rule': 'cases = HTTP requests sent over raw TCP to the real broker binary built from the working tree: all endpoints '
          'x methods (POST GET OPTIONS PUT DELETE HEAD FOO) x bodies (valid messages, mutated, random, empty, 99 '
